@@ -159,6 +159,34 @@ def enc_calls(g, tier, heavy=False):
                          0x00FF, 0xFF00, 0x0001_0000 | r.randrange(1 << 16)])
         m = g.rbytes(r.choice([0, 1, 2, 5, 17, 64]))
         calls.append(("vendorDefined", ["%02x.%08x.%04x" % (f, data, r.randrange(1 << 16)), hx(m)]))
+    # vendor bodies that begin with what the encoder is about to emit itself, or with other headers
+    for (f, data) in ((0, 0x1234), (0, 0x7E7E), (1, 0x00C0FFEE), (1, 0x7F000001), (0, 0x0F01)):
+        hdr = [(data >> 8) & 0xFF, data & 0xFF] if f == 0 else [(data >> 24) & 0xFF, (data >> 16) & 0xFF, (data >> 8) & 0xFF, data & 0xFF]
+        tb = 0x7E if f == 0 else 0x7F
+        for msg in ([tb] + hdr + [5, 6], [tb] + hdr, hdr + [1], [tb], [tb, tb] + hdr, [0x00, 0x80, 0x02], hdr + hdr):
+            calls.append(("vendorDefined", ["%02x.%08x.%04x" % (f, data, 0), hx(msg)]))
+    # routing tables as a bus owner would build them: contiguous EID ranges behind one bridge,
+    # single endpoints whose physical address is their EID shifted left, …
+    for _ in range(40):
+        n = r.randrange(1, 8)
+        es = []
+        first = r.randrange(8, 0x40)
+        phys = r.choice([first << 1, r.randrange(256), 0x42])
+        for k in range(n):
+            style = r.randrange(4)
+            if style == 0:
+                size = r.randrange(1, 9)
+                es += [0x03, size, first, phys]           # range continuing the previous one
+                first = (first + size) & 0xFF
+            elif style == 1:
+                es += [r.choice([0x00, 0x02]), 1, first, (first << 1) & 0xFF]
+                first = (first + 1) & 0xFF
+            elif style == 2:
+                es += [0x01, r.randrange(1, 5), first, phys]
+                first = (first + r.randrange(1, 6)) & 0xFF
+            else:
+                es += [r.randrange(4), r.choice([0, 1, 0xFF]), r.choice([first, 0, 0xFF]), phys]
+        calls.append(("reqRouting", [hx(es)]))
     # responses
     for cc in range(6):
         for rej in (0, 1):
@@ -289,6 +317,11 @@ def gen_sizes(g, tier):
             g.add("encr %s %s genSpdm secured 0102 %s %s" % (cid, hb(dst), hx(msg), hx(b)), "size:secured")
         else:
             g.add("enc %s %s genControl 8002 %s %s" % (cid, hb(dst), hx(msg), hx(b)), "size:control")
+    # long optional headers with short data (the size check must count the header)
+    for hl in (200, 247, 248, 249, 250, 251, 255, 256, 300, 65536):
+        for name in ("genSpdm spdm", "genSpdm secured", "genControl", "genPci", "genIana"):
+            for dl in (0, 1, 3):
+                g.add("enc %s 20 %s %s %s %s" % (cid, name, hx([0xA1] * hl), hx(g.rbytes(dl)), hx([0] * min(hl + dl + 20, 400))), "size:long-header")
     # far beyond the limit: lengths that wrap a 16-bit counter back into the acceptable range
     for n in (65533, 65536, 65536 + 100, 131072 + 7):
         d = [0x11] * n
@@ -484,6 +517,14 @@ def gen_decode_families(g, tier, verb="dec", ctxs=None, proc_buf=None):
                 g.add("dec %s %s" % (cid, hx(p + stray)), "probe-then:decode")
             else:
                 g.add("proc %s %s %s" % (cid, hx(p + stray), hx(proc_buf() if proc_buf else g.buf(64))), "probe-then:process")
+    # inputs far beyond any SMBus block: good and bad PEC
+    for n in (513, 514, 600, 1024, 2048, 4096, 70000):
+        for t, body in ((0x7E, g.rbytes(n - 10)), (0, ctrl_req(2, g.rbytes(n - 12))), (0, ctrl_resp(5, 0, g.rbytes(n - 13)))):
+            p = forge(0x10, 0x20, 0x10, 0x20, t, body)
+            emit(p, "huge-input")
+            q = list(p)
+            q[-1] ^= 0x01
+            emit(q, "huge-input-badpec")
     # long control packets (D8: byte count arithmetic on the incoming packet)
     for n in (240, 243, 244, 245, 246, 247, 248, 249, 250, 251, 252, 300):
         emit(forge(0x10, 0x20, 0x10, 0x20, 0, ctrl_req(2, g.rbytes(n))), "long-req")
@@ -705,6 +746,91 @@ def gen_exact_buffers(g, tier):
                     g.add("proc %s %s %s" % (cid, hx(p), hx(g.buf(bl, r.choice([0x00, 0xFF, None])))), "exact-buffer:" + lab)
 
 
+def gen_repeats(g, tier, kinds):
+    """the same operation many times on one context (counters, caches, anything that depends on the
+    number of calls so far): 70 000 repetitions cross every 16-bit counter"""
+    r = g.r
+    N = 70000
+    cid = g.ctx(0x23, [0x7E, 0x01], [(0, 0x1234, 0xAB), (1, 0x00C0FFEE, 7)])
+    b64 = hx([0] * 64)
+    if "proc" in kinds:
+        for body in (ctrl_req(2, []), ctrl_req(4, [0xFF]), ctrl_req(5, []), ctrl_req(3, []), ctrl_req(6, [1]), ctrl_req(1, [0, 0x33])):
+            g.add("repeat %d proc %s %s %s" % (N, cid, hx(forge(0x23, 0x34, 0x23, 0x34, 0, body)), b64), "repeat:proc")
+        g.add("repeat %d proc %s %s %s" % (N, cid, hx(forge(0x23, 0x34, 0x23, 0x34, 0x7F, [0, 0xC0, 0xFF, 0xEE, 1, 2])), b64), "repeat:proc-vendor")
+        g.add("repeat %d proc %s %s %s" % (N, cid, hx(forge(0x23, 0x34, 0x23, 0x34, 0, ctrl_resp(4, 0, [1, 0xF1, 0xF3, 0xF1, 0]))), b64), "repeat:proc-response")
+    if "dec" in kinds:
+        good = forge(0x23, 0x34, 0x23, 0x34, 0, ctrl_req(2, []))
+        bad = list(good)
+        bad[-1] ^= 0x55
+        for p in (good, bad, forge(0x23, 0x34, 0x23, 0x34, 0x0B, [1, 2]), forge(0x23, 0x34, 0x23, 0x34, 0x85, [1, 2]), good[:7]):
+            g.add("repeat %d dec %s %s" % (N, cid, hx(p)), "repeat:dec")
+        g.add("repeat %d len %s %s" % (N, cid, hx(good[:3])), "repeat:len")
+        g.add("repeat %d len %s %s" % (N, cid, hx([0x46, 0x0E, 0x08])), "repeat:len")
+    if "enc" in kinds:
+        for call in ("reqGetEid", "reqSetEid 00 09", "reqDiscovery", "respVersion 00", "respGetEid 00 00 00 0",
+                     "vendorDefined 00.00001234.0000 0102", "vendorDefined 01.00c0ffee.0000 0102",
+                     "genSpdm spdm none 0102", "genControl 8002 -", "reqSetEid 00 ff", "vendorDefined 02.00000001.0000 01"):
+            g.add("repeat %d enc %s 34 %s %s" % (N, cid, call, hx([0] * 40)), "repeat:enc")
+        big = hx([0x5A] * 247)
+        g.add("repeat %d enc %s 34 vendorDefined 00.00001234.0000 %s %s" % (2000000 if tier == "thorough" else N, cid, big, hx([0] * 259)), "repeat:enc-max")
+    if "view" in kinds:
+        g.add("repeat %d view bfb ff" % N, "repeat:view")
+        g.add("repeat %d view tfb 11000000 01" % N, "repeat:view")
+        g.add("repeat %d conv cmd 15" % N, "repeat:view")
+        if tier == "thorough":
+            # every 32-bit counter on the refusal paths of the two validators (≈ 4 min)
+            g.add("repeat 4300000000 view bfb ff", "repeat:view-2^32")
+
+
+def gen_relations(g, verb, ctxs, proc_buf=None):
+    """relations between header fields that one-byte-at-a-time sweeps never produce: equal endpoint
+    IDs, addresses equal to EIDs, the same bit wrong in two bytes, flag combinations, …"""
+    r = g.r
+
+    def emit(p, fam):
+        cid = r.choice(ctxs)
+        if verb == "dec":
+            g.add("dec %s %s" % (cid, hx(p)), fam)
+        else:
+            g.add("proc %s %s %s" % (cid, hx(p), hx(proc_buf() if proc_buf else g.buf(64))), fam)
+    bodies = [(0, ctrl_req(2, [])), (0, ctrl_req(1, [0, 0x21])), (0, ctrl_resp(4, 0, [1, 0xF1, 0xF3, 0xF1, 0])), (0x7E, [0x12, 0x34, 9]), (0x05, [1, 2, 3])]
+    for t, body in bodies:
+        for flags in (0xC8, 0x00, 0x40, 0x80, 0x08, 0x48, 0x88, 0xC0, 0x07, 0x47, 0x30, 0xFF):
+            for e in (0x01, 0x22, 0x7F, 0x80, 0xFE, 0x00, 0xFF):
+                for (a7, s7) in ((e & 0x7F, e & 0x7F), (0x10, e & 0x7F), (e >> 1, e >> 1)):
+                    emit(forge(a7, s7, e, e, t, body, flags=flags), "relation:dst=src")
+                emit(forge(0x10, 0x20, e, (e + 1) & 0xFF, t, body, flags=flags), "relation:src=dst+1")
+        # the same bit wrong in two validation bytes at once
+        base = forge(0x23, 0x34, 0x23, 0x34, t, body)
+        for bit in range(8):
+            for (i, j) in ((4, 8), (4, 9), (8, 9), (4, 7), (7, 8), (9, 10), (10, 11)):
+                if j < len(base) - 1:
+                    q = list(base)
+                    q[i] ^= 1 << bit
+                    q[j] ^= 1 << bit
+                    emit(refix(q), "relation:same-bit-%d-%d" % (i, j))
+    # packets that repeat the context's own configuration back at it
+    for cid in ctxs:
+        pass
+
+
+def gen_own_config(g, tier):
+    """messages that carry the context's own configured identifiers (vendor IDs, message types, EIDs,
+    address) in their payload: processing must still agree with decoding"""
+    r = g.r
+    for vendors in ([(1, 0x00C0FFEE, 7), (0, 0x1234, 1)], [(1, 0x0000BEEF, 1)], [(0, 0xBEEF, 2), (1, 0xDEADBEEF, 3), (1, 1, 1)]):
+        addr = g.rb()
+        cid = g.ctx(addr, [0x7E, 0x7F], vendors)
+        for (f, data, num) in vendors:
+            for pay in ([(data >> 24) & 0xFF, (data >> 16) & 0xFF, (data >> 8) & 0xFF, data & 0xFF, 1, 2, 3],
+                        [(data >> 8) & 0xFF, data & 0xFF, 9, 9], [(data >> 24) & 0xFF, (data >> 16) & 0xFF, (data >> 8) & 0xFF, data & 0xFF],
+                        [f, (data >> 8) & 0xFF, data & 0xFF, num >> 8, num & 0xFF]):
+                for t in (0x7F, 0x7E, 0x05):
+                    p = forge(addr & 0x7F, 0x34, addr, 0x34, t, pay)
+                    g.add("proc %s %s %s" % (cid, hx(p), hx(g.buf(64))), "own-config:vendor")
+                    g.add("dec %s %s" % (cid, hx(p)), "own-config:vendor-dec")
+
+
 def gen_responses(g, tier):
     """responses written by process_packet are encoded packets too (C03, C04, C05): answerable
     requests with every instance id, before and after an EID was assigned"""
@@ -731,6 +857,7 @@ def gen_for(prop, tier, seed):
     r = g.r
     T = tier == "thorough"
     if prop in ("C03", "C05", "C06", "C07", "C08"):
+        gen_repeats(g, tier, ("enc",))
         gen_encoders(g, tier, "sweep" if prop in ("C05",) else "few")
         gen_sizes(g, tier)
         if prop in ("C03", "C05"):
@@ -746,6 +873,7 @@ def gen_for(prop, tier, seed):
             for f in range(256):
                 g.add("enc %s 21 vendorDefined %02x.00c0ffee.0000 c3 %s" % (cid, f, hx([0x77] * 16)), "format")
     elif prop == "C04":
+        gen_repeats(g, tier, ("enc",))
         gen_encoders(g, tier, "sweep")
         gen_sizes(g, tier)
         gen_responses(g, tier)
@@ -756,6 +884,7 @@ def gen_for(prop, tier, seed):
                 for dst in range(128):
                     g.add("enc %s %s %s %s%s" % (cid, hb(dst), name, args, hx([0] * 20)), "pairs:" + name)
     elif prop == "C16":
+        gen_repeats(g, tier, ("enc",))
         gen_encoders(g, tier, "few", bufs=("exact+", "rand", "exact+"))
         gen_sizes(g, tier)
         cid = g.ctx(0x31, [], [(0, 1, 1)])
@@ -772,7 +901,9 @@ def gen_for(prop, tier, seed):
         gen_encoders(g, tier, "few", bufs=("exact+",))
         gen_sizes(g, tier)
     elif prop in ("C09",):
-        gen_decode_families(g, tier, "dec")
+        c9 = gen_decode_families(g, tier, "dec")
+        gen_relations(g, "dec", c9)
+        gen_repeats(g, tier, ("dec",))
         gen_state_probes(g, tier, with_decode=True)
         # the outcome must not depend on earlier calls: probe / decode / process something else first
         cid = g.ctx(0x23, [0x7E], [(0, 0x1234, 0xAB)])
@@ -794,6 +925,9 @@ def gen_for(prop, tier, seed):
     elif prop == "C10":
         ctxs = gen_decode_families(g, tier, "dec")
         gen_decode_families(g, tier, "proc", ctxs=ctxs)
+        gen_relations(g, "dec", ctxs)
+        gen_relations(g, "proc", ctxs)
+        gen_repeats(g, tier, ("proc", "dec", "view"))
         for p, lab in valid_packets(g):
             for k in range(0, len(p) + 1):
                 g.add("len %s" % hx(p[:k]), "len-trunc")
@@ -820,6 +954,8 @@ def gen_for(prop, tier, seed):
     elif prop == "C02":
         ctxs = gen_decode_families(g, "quick", "dec")
         gen_decode_families(g, "quick", "proc", ctxs=ctxs)
+        gen_relations(g, "dec", ctxs)
+        gen_repeats(g, tier, ("dec",))
         gen_bursts(g, tier, "dec", ctxs)
         gen_bursts(g, "quick", "proc", ctxs)
         if T:
@@ -839,7 +975,10 @@ def gen_for(prop, tier, seed):
         def pb():
             n = r2.choice([64, 65, 80, 128, 300])
             return [r2.randrange(256) for _ in range(n)]
-        gen_decode_families(g, tier, "proc", proc_buf=pb)
+        c11 = gen_decode_families(g, tier, "proc", proc_buf=pb)
+        gen_relations(g, "proc", c11, proc_buf=pb)
+        gen_repeats(g, tier, ("proc",))
+        gen_own_config(g, tier)
         gen_state_probes(g, tier)
         gen_exact_buffers(g, tier)
         cfg = (0x2B, [0x7E, 0x01], g.rand_vendors(2))
@@ -856,6 +995,7 @@ def gen_for(prop, tier, seed):
         if T:
             gen_sweeps(g, "proc")
     elif prop == "C12":
+        gen_repeats(g, tier, ("proc",))
         gen_state_probes(g, tier)
         gen_exact_buffers(g, tier)
         resp_cfgs = [(0x23, [0x7E], [(0, 0x1234, 0xAB)]), (0x7F, g.rbytes(30), g.rand_vendors(4)),
@@ -878,6 +1018,7 @@ def gen_for(prop, tier, seed):
                 p = forge(addr & 0x7F, r.randrange(128), r.randrange(256), r.randrange(256), 0, body)
                 g.add("proc %s %s %s" % (cid, hx(p), hx(g.buf(64))), "answer-foreign:" + lab)
     elif prop == "C13":
+        gen_repeats(g, tier, ("proc",))
         gen_state_probes(g, tier)
         gen_exact_buffers(g, tier)
         # assignments processed into buffers too small for the answer: whatever the call does, both
@@ -933,6 +1074,14 @@ def gen_for(prop, tier, seed):
                     if r.random() < 0.2:
                         gen_history(g, 1, cid, (addr, [], vendors), "walk-interleave")
     elif prop == "C15":
+        gen_repeats(g, tier, ("proc",))
+        # UUID updates that differ only in their tail / head, from and to the nil UUID
+        cid = g.ctx(0x4D, [0x7E], [(0, 1, 1)])
+        headfix = g.rbytes(8)
+        for u in ([0] * 8 + g.rbytes(8), [0] * 15 + [1], headfix + g.rbytes(8), headfix + g.rbytes(8), headfix + [0] * 8,
+                  g.rbytes(8) + headfix, [0] * 16, [0xFF] * 16, [0xFF] * 15 + [0xFE], [0] * 16):
+            g.add("setuuid %s %s" % (cid, hx(u)), "uuid-relation:set")
+            g.add("proc %s %s %s" % (cid, hx(forge(0x4D, 0x19, 0x4D, 0x19, 0, ctrl_req(3, []))), hx(g.buf(64))), "uuid-relation:query")
         gen_exact_buffers(g, tier)
         gen_state_probes(g, tier)
         # configuration shapes: special type codes against vendor sets of one format only / both
@@ -974,6 +1123,7 @@ def gen_for(prop, tier, seed):
             pre = [g.rb(), r.choice([0x0F, g.rb()]), g.rb()]
             for _ in range(3):
                 g.add("len c%d %s" % (1 + r.randrange(3), hx(pre + g.rbytes(r.randrange(0, 40)))), "continuation")
+        gen_repeats(g, tier, ("dec",))
         # long inputs: total lengths around multiples of 256 and 65536
         for n in (254, 255, 256, 257, 258, 259, 260, 511, 512, 513, 514, 515, 1024, 65535, 65536, 65537, 65539):
             for b1, b2 in ((0x0F, 0xFC), (0x0F, 0x00), (0x0E, 0x10), (0x0F, g.rb())):
@@ -999,6 +1149,7 @@ def gen_for(prop, tier, seed):
                      ("ctx c3 00 - -", "ctx"), ("seteid c2 req 42", "setup"), ("seteid c2 resp 99", "setup")]
         g.lines = pre_lines + g.lines
     elif prop == "C18":
+        gen_repeats(g, tier, ("view",))
         gen_views(g, tier)
     elif prop == "C19":
         for b in range(256):
@@ -1083,6 +1234,14 @@ def gen_views(g, tier):
         g.add("new transport %s" % hb(v), "new:transport")
         g.add("new routing %s %s %s %s" % (hb(v % 4), hb(g.rb()), hb(g.rb()), hb(g.rb())), "new:routing")
         g.add("new routing %s %s %s %s" % (hb(g.rb() % 4), hb(v), hb(255 - v), hb(v ^ 0x5A)), "new:routing")
+    for first in range(256):
+        for (t, size, phys) in ((0, 1, (first << 1) & 0xFF), (2, 1, (first << 1) & 0xFF), (1, 1, first), (0, 1, first), (0, 0, (first << 1) & 0xFF),
+                                (3, first, first), (0, 1, ((first << 1) | 1) & 0xFF), (2, 2, (first << 1) & 0xFF)):
+            g.add("new routing %s %s %s %s" % (hb(t), hb(size), hb(first), hb(phys)), "new:routing-relation")
+    for e in range(256):
+        for flags in (0xC8, 0x00, 0x40, 0x80, 0x08, 0x48, 0x88, 0xC0, 0x07, 0xF7):
+            g.add("view tfb %s 01" % hx([0x01, e, e, flags]), "from_buf:transport-relation")
+            g.add("view tfb %s 01" % hx([0x01, e, (e + 1) & 0xFF, flags]), "from_buf:transport-relation")
     for ic in (0, 1):
         for t in TYPE_NAMES:
             g.add("new body %d %s" % (ic, t), "new:body")
